@@ -422,6 +422,79 @@ Proof.
   - intros e' n He. apply in_map_iff in He. destruct He as [e [<- He]]. simpl. now apply Hn.
 Qed.
 
+
+(* generalised first moment: ANY weight x on the dofs whose interpolation at the Gauss points is
+   known.  x = 1 on force dofs / 0 on moment dofs gives the Hermitian force resultant
+   (sum phi_i = 1); x = node coordinate on force dofs / 1 on rotation dofs gives the Hermitian
+   moment identity (sum phi_i x_i + sum L psi_i = x). *)
+Theorem first_moment_with (x : nat -> R) (xp : lelem -> gpt -> R) es ns : NoDup ns ->
+  (forall e n, In e es -> In n (lnodes e) -> In n ns) ->
+  (forall e g, In e es -> In g (lpts e) -> xgauss x e g = xp e g) ->
+  Rsum (map (fun n => x n * vec (contribs F_call es) n) ns) = quad_sum es (fun e g => xp e g * fv g).
+Proof.
+  intros Hd Hn Hx. rewrite first_moment; auto. unfold quad_sum.
+  apply Rsum_map_ext. intros e He. apply Rsum_map_ext. intros g Hg. now rewrite (Hx e g He Hg).
+Qed.
+
+(* pressure on a planar face set.  Mesh.Get_normals: the nodal normal is the normalised mean of the
+   integrated normals of the selected elements containing the node; on a planar face set every
+   element normal is a positive multiple of the same unit vector n, hence every nodal normal is n.
+   The load is then the nodal array p*n_d (same value on every node), and the resultant of each
+   component is p * n_d * area. *)
+Definition vscale (c : R) (v : R * R * R) : R * R * R :=
+  let '(a, b, d) := v in (c * a, c * b, c * d).
+Definition vadd (u v : R * R * R) : R * R * R :=
+  let '(a, b, d) := u in let '(a', b', d') := v in (a + a', b + b', d + d').
+Definition vnorm (v : R * R * R) : R := let '(a, b, d) := v in sqrt (a * a + b * b + d * d).
+Definition vnormalize (v : R * R * R) : R * R * R := vscale (/ vnorm v) v.
+Definition vsum (l : list (R * R * R)) : R * R * R := fold_right vadd (0, 0, 0) l.
+
+Lemma vsum_scaled (n : R * R * R) (areas : list R) :
+  vsum (map (fun a => vscale a n) areas) = vscale (Rsum areas) n.
+Proof.
+  induction areas as [|c l IH].
+  - destruct n as [[a b] d]. simpl. f_equal; [f_equal|]; lra.
+  - change (vsum (map (fun a => vscale a n) (c :: l)))
+      with (vadd (vscale c n) (vsum (map (fun a => vscale a n) l))).
+    rewrite IH. destruct n as [[a b] d]. simpl. f_equal; [f_equal|]; lra.
+Qed.
+
+(* normal_n = Normalize((sum_e normal_e) / count) = n when normal_e = area_e * n, area_e > 0, |n| = 1 *)
+Theorem nodal_normal_planar (n : R * R * R) (areas : list R) (count : R) :
+  vnorm n = 1 -> 0 < count -> 0 < Rsum areas ->
+  vnormalize (vscale (/ count) (vsum (map (fun a => vscale a n) areas))) = n.
+Proof.
+  intros Hn Hc Ha. rewrite vsum_scaled. destruct n as [[a b] d]. unfold vnormalize, vnorm, vscale in *.
+  set (k := / count * Rsum areas).
+  assert (Hk : 0 < k) by (unfold k; apply Rmult_lt_0_compat; auto; now apply Rinv_0_lt_compat).
+  replace (/ count * (Rsum areas * a)) with (k * a) by (unfold k; ring).
+  replace (/ count * (Rsum areas * b)) with (k * b) by (unfold k; ring).
+  replace (/ count * (Rsum areas * d)) with (k * d) by (unfold k; ring).
+  replace (k * a * (k * a) + k * b * (k * b) + k * d * (k * d)) with (k * k * (a * a + b * b + d * d)) by ring.
+  rewrite sqrt_mult_alt by nra. rewrite Hn, Rmult_1_r.
+  replace (k * k) with (k ^ 2) by ring. rewrite sqrt_pow2 by lra.
+  f_equal; [f_equal|]; field; lra.
+Qed.
+
+(* resultant of one component of the pressure load: nodal array with the same value v = p * n_d on
+   every node (as written: F_nodal_written) *)
+Theorem pressure_planar_resultant (v : R) es ns : NoDup ns ->
+  (forall e, In e es -> wf e /\ pou e) ->
+  (forall e n, In e es -> In n (lnodes e) -> In n ns) ->
+  (forall e i, In e es -> (i < nPe e)%nat -> nthR i (fnod e) = v) ->
+  Rsum (map (vec (contribs F_nodal_written es)) ns) = v * quad_sum es (fun _ _ => 1).
+Proof.
+  intros Hd Hw Hn Hv. rewrite resultant_nodal_written; auto.
+  2:{ intros e He. now destruct (Hw e He). }
+  unfold quad_sum. rewrite <- Rsum_map_scal. apply Rsum_map_ext. intros e He.
+  rewrite <- Rsum_map_scal. apply Rsum_map_ext. intros g Hg.
+  destruct (Hw e He) as [W P]. unfold interp, sumi.
+  rewrite (Rsum_map_ext _ (fun i => v * nthR i (Nrow g))).
+  2:{ intros i Hi. apply in_seq in Hi. rewrite (Hv e i He). reflexivity. rewrite <- (W g Hg). lia. }
+  rewrite Rsum_map_scal. fold (sumi (length (Nrow g)) (fun i => nthR i (Nrow g))).
+  rewrite sumi_row, (P g Hg). ring.
+Qed.
+
 (* only loaded elements: a node outside every integrated element gets nothing *)
 Theorem only_loaded_elements F es n :
   (forall e, In e es -> ~ In n (lnodes e)) -> vec (contribs F es) n = 0.
